@@ -316,7 +316,8 @@ class RangeAnalysis:
     entries: blocks at which x ranges over its whole domain `dom` (an ISet).
     env: optional {local: AV} (used when analysing a callee in the caller's x)."""
 
-    def __init__(self, facts, body, xkeys, xbits, dom, entries=(0,), env=None, depth=0, N=None, stop=(), opaque_ok=False):
+    def __init__(self, facts, body, xkeys, xbits, dom, entries=(0,), env=None, depth=0, N=None, stop=(), opaque_ok=False, assume_variant=None):
+        self.assume_variant = assume_variant
         self.facts = facts
         self.body = body
         self.xkeys = set(xkeys)
@@ -354,6 +355,9 @@ class RangeAnalysis:
             return AV.ident(self.xbits, N)
         k = e[0]
         if k == 'c':
+            if isinstance(e[2], str) and e[2][:1] == 'i' and e[2] != 'isize' and isinstance(e[1], int) and (ty_bits(e[2]) or 0) in (8, 16, 32) and \
+                    e[1] >= (1 << (ty_bits(e[2]) - 1)):
+                return AV.const(e[1] - (1 << ty_bits(e[2])), ty_bits(e[2]), N)       # a negative constant of a signed type
             return AV.const(e[1], ty_bits(e[2]) or 64, N)
         if self.ptrmap is not None:
             pe = strip_ref(e)
@@ -390,6 +394,27 @@ class RangeAnalysis:
             to = e[3]
             tb = ty_bits(to)
             if kind in ('IntToInt',) and tb:
+                if tb == v.bits and to.startswith('i') and tb in (8, 16, 32):
+                    # reinterpretation as the signed type of the same width (`b as i8`): values from 2^(w-1) up become value - 2^w
+                    half, M_ = 1 << (tb - 1), 1 << tb
+                    out_ = []
+                    okp = True
+                    for lo, hi, kk, a in v.pieces:
+                        if kk == 'c':
+                            out_.append((lo, hi, 'c', a - M_ if a >= half else a))
+                        elif kk == 'x':
+                            # value = x + a on [lo, hi], inside [0, 2^w)
+                            cut = half - a          # first x whose value reaches 2^(w-1)
+                            if hi < cut:
+                                out_.append((lo, hi, 'x', a))
+                            elif lo >= cut:
+                                out_.append((lo, hi, 'x', a - M_))
+                            else:
+                                out_.append((lo, cut - 1, 'x', a))
+                                out_.append((cut, hi, 'x', a - M_))
+                        else:
+                            out_.append((lo, hi, kk, a))
+                    return AV(out_, tb)
                 if tb >= v.bits and not to.startswith('i'):
                     return AV(v.pieces, tb)
                 w = wrap_pieces(v.pieces, tb) if not to.startswith('i') else None
@@ -654,8 +679,8 @@ class RangeAnalysis:
                         out.append((lo, hi, 'T', 0))
                 return AV(out, 1).compact()
             return self.top(1)
-        if self.ptrmap is not None and short == 'eq' and len(args) == 2 and ('PartialEq' in fn or 'Encoding' in fn):
-            return self.binop(('bin', 'Eq', args[0], args[1]))
+        if self.ptrmap is not None and short in ('eq', 'ne') and len(args) == 2 and ('PartialEq' in fn or 'Encoding' in fn):
+            return self.binop(('bin', 'Eq' if short == 'eq' else 'Ne', args[0], args[1]))
         b = self.facts.body(fn)
         if b is not None and self.depth < 3 and len(args) == b.arg_count:
             env = {}
@@ -842,6 +867,13 @@ class RangeAnalysis:
     def edges(self, b, cur):
         body = self.body
         t = body.blocks[b]['t']
+        if 'switch' in t and t.get('variants') and getattr(self, 'assume_variant', None):
+            # a match on an enum-typed place whose variant the caller has fixed (per-state evaluation): only that arm is taken
+            scr = self.res.place(t['discr_of'], record=False)
+            if scr in self.assume_variant:
+                want = self.assume_variant[scr]
+                tg = [tgt for val, tgt in t['targets'] if t['variants'].get(str(val)) == want]
+                return [(tg[0] if tg else t['otherwise'], cur)]
         if 'switch' in t:
             self.res.cur = (b, 't')
             self.cur_block = b
